@@ -1027,10 +1027,18 @@ class NearestNeighborMethod(OrthorectificationHelper):
             # determine the in bounds points
             mask = self._get_mask(pixel_rows, pixel_cols, row_array, col_array)
             # determine the nearest neighbors for our row/column indices
-            row_inds = numpy.digitize(pixel_rows[mask], row_array)
-            col_inds = numpy.digitize(pixel_cols[mask], col_array)
+            row_inds = self._nearest_index(pixel_rows[mask], row_array)
+            col_inds = self._nearest_index(pixel_cols[mask], col_array)
             ortho_array[mask] = value_array[row_inds, col_inds]
         return ortho_array
+
+    @staticmethod
+    def _nearest_index(values, grid):
+        # the mask guarantees grid[0] <= values < grid[-1], so digitize yields
+        # ind with grid[ind-1] <= values < grid[ind]; step back when the lower
+        # grid entry is strictly closer
+        ind = numpy.digitize(values, grid)
+        return ind - ((values - grid[ind - 1]) < (grid[ind] - values))
 
 
 class BivariateSplineMethod(OrthorectificationHelper):
